@@ -43,6 +43,10 @@ func (hook Hooks) AfterValidatorBeginUnbonding(ctx sdk.Context, consAddr sdk.Con
 } // Must be called when a validator begins unbonding
 
 func (hook Hooks) BeforeDelegationCreated(ctx sdk.Context, delAddr sdk.AccAddress, valAddr sdk.ValAddress) error {
+	// a new delegation had no shares before. Without this, AfterDelegationModified would read
+	// whatever an earlier transaction left behind (BeforeDelegationSharesModified of a
+	// delegation that then failed, or was only simulated, never reaches the reset)
+	sharesBeforeModified = sdk.NewDec(0)
 	return nil
 } // Must be called when a delegation is created
 
